@@ -67,6 +67,8 @@ class SetExpr:
     bindings: dict
     inline: bool = False   # written on one line: `rec { x = a; a = 1; }` (only flat sets)
     notes: dict = field(default_factory=dict)   # name -> text of a block comment before the value
+    dotted: bool = False   # written as dotted bindings of the parent: `k.x = a; k.y = 1;`
+                           # (only flat, plain sets without wrappers)
 
 
 @dataclass
@@ -352,6 +354,11 @@ def _render_bindings(b: dict, indent: int, notes: dict | None = None) -> str:
             out.append(f"{pad}{k} = {note}{v};")
         elif isinstance(v, Ref):
             out.append(f"{pad}{k} = {note}{v.name};")
+        elif v.dotted and not v.wrappers and not v.rec and v.bindings \
+                and all(isinstance(x, (int, Ref)) for x in v.bindings.values()):
+            for kk, x in v.bindings.items():
+                nn = f"/* {v.notes[kk]} */ " if kk in v.notes else ""
+                out.append(f"{pad}{k}.{kk} = {nn}{x.name if isinstance(x, Ref) else x};")
         elif v.wrappers:
             out.append(f"{pad}{k} =\n{pad}  {_render_setexpr(v, indent + 2)};")
         else:
@@ -521,7 +528,7 @@ def gen_setexpr(rng: random.Random, depth: int, set_names: list[str], counter: l
             bindings[f"n{counter[0]}"] = gen_setexpr(rng, depth + 1, local_sets, counter)
     items = list(bindings.items())
     rng.shuffle(items)
-    out = SetExpr(wrappers, rec, dict(items), inline=rng.random() < 0.3)
+    out = SetExpr(wrappers, rec, dict(items), inline=rng.random() < 0.3, dotted=rng.random() < 0.25)
     # block comments in front of some integer values (trivia that a write-through must keep in
     # place and must not carry elsewhere)
     for holder in [out] + [fr for fr in wrappers if fr.kind == "let"]:
